@@ -122,6 +122,14 @@ def run(run):
                 pred = [] if pred == [""] and not any(fn.endswith(".cql") for fn in files) else pred
                 if collections.Counter(pred) != got_hosted:
                     mism.append(dict(files=sorted(files), model=pred[:3], real=list(got_hosted)[:3]))
+                # document level: the bytes the script wrote vs the Lean model of MarshalIndent on the same directory,
+                # and what the Lean loader model reads out of them
+                dd = d.call("bundle-doc", name, *flat)
+                stats["bundle_documents_compared"] += 1
+                if dd[0] != bundle or list(dd[1:]) != list(hosted["rules"] or []):
+                    k = next((i for i, (a, b) in enumerate(zip(dd[0], bundle)) if a != b), min(len(dd[0]), len(bundle)))
+                    mism.append(dict(what="bundle document", files=sorted(files), first_difference_at=k, model=dd[0][max(0, k - 40):k + 40], real=bundle[max(0, k - 40):k + 40],
+                                     model_rules=len(dd) - 1, real_rules=len(hosted["rules"] or [])))
                 if case < 2:
                     run.sample(dict(directory=sorted(files), cql_files=sum(want.values()), bundle_bytes=len(bundle)))
             finally:
